@@ -16,6 +16,8 @@ ALL_FNS = [
     "ksf::Identity::hash", G + "i2osp_2", G + "KeGroup::derive_auth_keypair",
     K + "KeyPair::public", K + "KeyPair::private", K + "KeyPair::from_private_key", K + "KeyPair::from_private_key_slice", K + "KeyPair::generate_random",
     K + "PrivateKey::diffie_hellman", K + "PrivateKey::public_key", K + "PrivateKey::serialize", K + "PrivateKey::deserialize", K + "PublicKey::deserialize", K + "PublicKey::serialize",
+    K + "PrivateKey::deserialize[serde]", K + "PrivateKey::serialize[serde]", K + "PublicKey::deserialize[serde]", K + "PublicKey::serialize[serde]",
+    M + "deserialize_blinded_element", M + "deserialize_evaluation_element",
     T + "generate_nonce", T + "hkdf_expand_label_extracted", T + "hkdf_expand_label", T + "derive_secrets", T + "derive_3dh_keys",
     T + "TripleDh::generate_ke1", T + "TripleDh::generate_ke2", T + "TripleDh::generate_ke3", T + "TripleDh::finish_ke",
     T + "Ke1State::deserialize", T + "Ke1State::serialize", T + "Ke1Message::deserialize", T + "Ke1Message::serialize", T + "Ke2State::deserialize", T + "Ke2State::serialize",
@@ -33,8 +35,8 @@ ALL_FNS = [
     O + "ClientLogin::serialize", O + "ClientLogin::deserialize", O + "ClientLogin::start", O + "ClientLogin::finish", O + "ServerLogin::serialize", O + "ServerLogin::deserialize",
     O + "ServerLogin::start", O + "ServerLogin::finish", O + "ClientRegistrationFinishParameters::new", O + "ClientLoginFinishParameters::new",
 ]
-DECODERS = [f for f in ALL_FNS if f.endswith("::deserialize")]
-ENCODERS = [f for f in ALL_FNS if f.endswith("::serialize")]
+DECODERS = [f for f in ALL_FNS if f.endswith("::deserialize") or f.endswith("::deserialize[serde]")]
+ENCODERS = [f for f in ALL_FNS if f.endswith("::serialize") or f.endswith("::serialize[serde]")]
 
 
 def star(fns):
@@ -184,7 +186,7 @@ PROPS["C13"] = {
     }],
     "witness": "c13",
     "explanation": "For the five persistable states, deserialize(serialize(x)) is Ok and equal to x field by field (a dropped or reordered field fails); every later step is a function of the state VALUE (determinism, C17), so a reloaded state continues identically. Envelope.mode is not serialized: it is Internal for every envelope that reaches a password file (seal.rfc).",
-    "assumptions": [A_PRELUDE, "serde: the four hand-written key impls route through KG::deserialize_*/serialize_* (read, not modelled); derived serde impls are generated code with no function body to put a contract on — assumed field-wise; exercised by the replay crate (bincode / JSON reload at every boundary) as testing"],
+    "assumptions": [A_PRELUDE, "serde: the four hand-written key impls are under contract (route through KG::deserialize_*/serialize_*); derived serde impls are generated code with no function body to put a contract on — assumed field-wise; exercised by the replay crate (bincode / JSON reload at every boundary) as testing"],
 }
 
 PROPS["C14"] = {
@@ -270,7 +272,8 @@ PROPS["C10"] = {
 PROPS["C11"] = {
     "alternatives": [{
         "name": "decoders-only",
-        "clauses": star(DECODERS) + [(K + "PublicKey::deserialize", "*"), (K + "PrivateKey::deserialize", "*"), (K + "KeyPair::from_private_key_slice", "*"), (O + "unmask_response", "*")],
+        "clauses": star(DECODERS) + [(K + "PublicKey::deserialize", "*"), (K + "PrivateKey::deserialize", "*"), (K + "KeyPair::from_private_key_slice", "*"), (O + "unmask_response", "*"),
+                                     (K + "PrivateKey::deserialize[serde]", "*"), (K + "PublicKey::deserialize[serde]", "*"), (M + "deserialize_blinded_element", "*"), (M + "deserialize_evaluation_element", "*")],
         "exclude": {"strict"},
         "kani": {"quick": [("api", "x25519_pk_no_small_order"), ("api", "x25519_sk_decode"), ("api", "ristretto_sk_decode"), ("api", "ristretto_pk_decode_rejects_identity")],
                  "thorough": [("api", "x25519_pk_decode_identity"), ("api", "ristretto_decode_length"), ("api", "x25519_sk_decode_length")]},
@@ -279,7 +282,7 @@ PROPS["C11"] = {
     "witness": "c11",
     "explanation": "Group level (Kani on the real KeGroup impls): Curve25519 deserialize_pk never yields the identity or a small-order point (canonical and non-reduced spellings, with and without bit 255), deserialize_sk only clamped non-zero scalars (complete over 2^256); ristretto255 deserialize_pk never yields the identity (decompress stubbed by its contract), deserialize_sk never zero / non-canonical. Message level (Verus): every group-element and scalar field of every message and state is obtained ONLY through those decoders (the `fields` clauses: Some(field) == de_pk / de_sk / de_elem / de_scalar of the corresponding input bytes) plus the explicit identity checks on OPRF elements in login messages (`nonid`).",
     "assumptions": [A_PRELUDE, "off-curve / non-canonical rejection inside dalek decompress, elliptic-curve from_sec1_bytes, Scalar::from_canonical_bytes is the dependency's contract (sampled by the replay crate)", "NIST KeGroup wrapper (blanket impl in elliptic_curve.rs): not reachable by Kani here (generic over RustCrypto curve types); its identity / range / tag behaviour is sampled exhaustively over the tag byte by the replay crate — testing, not proof",
-                    "serde: hand-written key impls route through the same KG decoders (read); derived impls are generated code (assumed field-wise), exercised by the replay crate"],
+                    "serde: the four hand-written key impls are under contract (they route through KG::deserialize_* / serialize_* and nothing else; serde itself is a shim); derived impls are generated code (assumed field-wise), exercised by the replay crate through bincode and JSON"],
 }
 
 PROPS["C12"] = {
